@@ -65,37 +65,63 @@ package zip
 //@   modifies cf, []FileError
 //@   allocates
 //@   ensures len(cf.Invalid) >= 1 && cf.SizeError == old(cf.SizeError) && cf.Valid == old(cf.Valid)
-//@   props C12
+//@   props C12 C05
 
 //@ # when checkZip reports no error, every entry of the archive it returns has the module prefix and a valid clean name
 //@ # a file entry (not the prefix itself, not a directory)
 //@ spec func ISFILEENTRY(n string, prefix string) bool = len(n) > len(prefix) && !strings.HasSuffix(n[len(prefix):], "/")
+//@ # the name an entry is judged by: what follows the prefix, without the trailing slash of a directory entry
+//@ spec macro ZNAME(full string, prefix string, name string, isDir bool) bool =
+//@     strings.HasPrefix(full, prefix) && len(full) > len(prefix) && isDir == strings.HasSuffix(full[len(prefix):], "/")
+//@     && name == (if isDir then full[len(prefix):len(full)-1] else full[len(prefix):])
+//@ # an entry reported valid is a file entry under the prefix with a clean valid name; go.mod only at the root, in lower case
+//@ spec func ZIPVALID(full string, prefix string) bool =
+//@     strings.HasPrefix(full, prefix) && ISFILEENTRY(full, prefix) && path.Clean(full[len(prefix):]) == full[len(prefix):] && PATHOK(full[len(prefix):], 2)
+//@     && (strings.EqualFold(path.Base(full[len(prefix):]), "go.mod") ==> full[len(prefix):] == "go.mod")
 //@ func checkZip
 //@   requires f != nil
 //@   modifies map.collisionChecker, []FileError, ghost.WRITTEN
 //@   ensures [C12] entries_valid: result2 == nil ==> result0 != nil && (forall i int :: 0 <= i && i < len(result0.File) ==> result0.File[i] != nil && ENTRYOK(result0.File[i].Name, SPR2("%s@%s/", m.Path, m.Version)))
 //@   ensures [C12] err_is_report: result2 == nil ==> result1.SizeError == nil && len(result1.Invalid) == 0
 //@   ensures [C12] sizes_bounded: result2 == nil ==> (forall i int :: 0 <= i && i < len(result0.File) && ISFILEENTRY(result0.File[i].Name, SPR2("%s@%s/", m.Path, m.Version)) ==> 0 <= asint64(result0.File[i].UncompressedSize64) && asint64(result0.File[i].UncompressedSize64) <= MaxZipFile)
+//@   # which entries the zip check reports valid, and the reason behind each report of an invalid entry (call sites of
+//@   # the reporting closure in source order)
+//@   ensures [C12, C05] valid_entries: forall k int :: 0 <= k && k < len(result1.Valid) ==> ZIPVALID(result1.Valid[k], SPR2("%s@%s/", m.Path, m.Version))
+//@   call checkZip$1 site 0 requires [C12, C05] why_prefix: !strings.HasPrefix(zf.Name, prefix)
+//@   call checkZip$1 site 1 requires [C12, C05] why_unclean: arg_err == errPathNotClean && ZNAME(zf.Name, prefix, name, isDir) && path.Clean(name) != name
+//@   call checkZip$1 site 2 requires [C12, C05] why_illformed: arg_err != nil && ZNAME(zf.Name, prefix, name, isDir) && path.Clean(name) == name && !PATHOK(name, 2)
+//@   call checkZip$1 site 3 requires [C12, C05] why_collision: arg_err != nil && ZNAME(zf.Name, prefix, name, isDir) && path.Clean(name) == name && PATHOK(name, 2)
+//@   call checkZip$1 site 4 requires [C12, C05] why_gomod_place: ZNAME(zf.Name, prefix, name, isDir) && !isDir && strings.EqualFold(path.Base(name), "go.mod") && path.Base(name) != name
+//@   call checkZip$1 site 5 requires [C12, C05] why_gomod_case: arg_err == errGoModCase && ZNAME(zf.Name, prefix, name, isDir) && !isDir && strings.EqualFold(name, "go.mod") && name != "go.mod"
+//@   call checkZip$1 site 6 requires [C12, C05] why_gomod_size: ZNAME(zf.Name, prefix, name, isDir) && !isDir && name == "go.mod" && sz > MaxGoMod && sz == asint64(zf.UncompressedSize64)
+//@   call checkZip$1 site 7 requires [C12, C05] why_license_size: ZNAME(zf.Name, prefix, name, isDir) && !isDir && name == "LICENSE" && sz > MaxLICENSE && sz == asint64(zf.UncompressedSize64)
 //@   loop 0:
 //@     invariant 0 - 1 <= @idx && @idx < len(z.File) && z != nil && collisions != nil
+//@     invariant forall k int :: 0 <= k && k < len(cf.Valid) ==> ZIPVALID(cf.Valid[k], prefix)
 //@     invariant forall i int :: 0 <= i && i < len(z.File) ==> z.File[i] != nil
 //@     invariant prefix == SPR2("%s@%s/", m.Path, m.Version)
 //@     invariant len(cf.Invalid) == 0 ==> (forall i int :: 0 <= i && i <= @idx ==> ENTRYOK(z.File[i].Name, prefix))
 //@     invariant 0 <= size && size <= MaxZipFile && fresharr(cf.Valid) && oldarrays_kept(cf.Valid)
 //@     invariant len(cf.Invalid) == 0 && cf.SizeError == nil ==> (forall i int :: 0 <= i && i <= @idx && ISFILEENTRY(z.File[i].Name, prefix) ==> 0 <= asint64(z.File[i].UncompressedSize64) && asint64(z.File[i].UncompressedSize64) <= MaxZipFile)
 //@     decreases len(z.File) - @idx
-//@   props C12
+//@   props C12 C05
 
 //@ func Unzip$1
 //@   modifies err
 //@   allocates
 //@   ensures (err == nil) == (old(err) == nil)
-//@   props C12
+//@   props C12 C05
 
 //@ # every directory and file that Unzip creates lies in (or is) the target directory, files are created
 //@ # exclusively, and nothing is created before the archive passed checkZip with no error
 //@ func Unzip
-//@   modifies map.collisionChecker, ghost.WRITTEN, []FileError, io.LimitedReader.N
+//@   modifies map.collisionChecker, ghost.WRITTEN, []FileError, io.LimitedReader.N, ghost.CREATED
+//@   let Z "*zip.Reader" = z @after loop 0
+//@   let PREFIX string = prefix @after loop 0
+//@   # the extracted tree equals the entries: success means every file entry was created under its own name, and
+//@   # nothing is created that is not a file entry
+//@   ensures [C12, C05] every_file_entry_extracted: err == nil ==> (forall i int :: 0 <= i && i < len(Z.File) && ISFILEENTRY(Z.File[i].Name, PREFIX) ==> CREATED[NAMEID(JOIN2(dir, Z.File[i].Name[len(PREFIX):]))])
+//@   call os.OpenFile requires [C12, C05] only_file_entries_created: arg_name == JOIN2(dir, zf.Name[len(prefix):]) && ISFILEENTRY(zf.Name, prefix)
 //@   call os.MkdirAll requires [C12] mkdir_confined: arg_path == dir || WITHIN(dir, arg_path)
 //@   call os.OpenFile requires [C12] create_confined: WITHIN(dir, arg_name) && arg_flag == 193
 //@   # nothing pre-existing (a stale file, a symlink leading elsewhere) can sit below the target: it was seen empty
@@ -105,10 +131,11 @@ package zip
 //@     invariant 0 - 1 <= @idx && @idx < len(z.File) && z != nil
 //@     invariant prefix == SPR2("%s@%s/", m.Path, m.Version)
 //@     invariant forall i int :: 0 <= i && i < len(z.File) ==> z.File[i] != nil && ENTRYOK(z.File[i].Name, prefix)
+//@     invariant forall i int :: 0 <= i && i <= @idx && ISFILEENTRY(z.File[i].Name, prefix) ==> CREATED[NAMEID(JOIN2(dir, z.File[i].Name[len(prefix):]))]
 //@     invariant forall i int :: 0 <= i && i < len(z.File) && ISFILEENTRY(z.File[i].Name, prefix) ==> 0 <= asint64(z.File[i].UncompressedSize64) && asint64(z.File[i].UncompressedSize64) <= MaxZipFile
 //@     decreases len(z.File) - @idx
 //@   uses join_within
-//@   props C12
+//@   props C12 C05
 
 //@ # ---------- which files belong in a module zip (C17) and what Create writes (C05) ----------
 //@ iface File.Path(f File) string
@@ -158,9 +185,14 @@ package zip
 //@   ensures len(cf.Omitted) >= old(len(cf.Omitted)) && len(cf.Invalid) >= old(len(cf.Invalid))
 //@   props C17 C05
 
+//@ # a file is in a nested module when some proper ancestor directory of it holds a (regular) go.mod
+//@ spec macro INSUB(p string, hm "map[string]bool") bool = exists k int {p[k]} :: 0 <= k && k < len(p) && p[k] == '/' && has(hm, p[:k+1]) && hm[p[:k+1]]
 //@ func checkFiles$2
+//@   ensures [C17] nested_module_rule: result == INSUB(p, haveGoMod)
 //@   loop 0:
-//@     invariant true
+//@     invariant len(p) <= len(old(p)) && p == old(p)[:len(p)] && (len(p) < len(old(p)) ==> old(p)[len(p)] == '/')
+//@     invariant forall k int {old(p)[k]} :: len(p) <= k && k < len(old(p)) && old(p)[k] == '/' ==> !(has(haveGoMod, old(p)[:k+1]) && haveGoMod[old(p)[:k+1]])
+//@     decreases len(p)
 //@   props C17 C05
 
 //@ # every name reported as valid passed every documented rule; the valid files and their sizes are listed in parallel
@@ -178,14 +210,14 @@ package zip
 //@   call checkFiles$1 site 1 requires [C17] order_unclean: arg_err == errPathNotClean && !arg_omitted && path.Clean(arg_path) != arg_path
 //@   call checkFiles$1 site 2 requires [C17] order_absolute: arg_err == errPathNotRelative && !arg_omitted && path.Clean(arg_path) == arg_path && path.IsAbs(arg_path)
 //@   call checkFiles$1 site 3 requires [C17] order_vendored: arg_err == errVendored && arg_omitted && path.Clean(arg_path) == arg_path && !path.IsAbs(arg_path) && VENDORED(arg_path, vers)
-//@   call checkFiles$1 site 4 requires [C17] order_submodule: arg_err == errSubmoduleFile && arg_omitted && path.Clean(arg_path) == arg_path && !path.IsAbs(arg_path) && !VENDORED(arg_path, vers)
-//@   call checkFiles$1 site 5 requires [C17] order_hg: arg_err == errHgArchivalTxt && arg_omitted && arg_path == ".hg_archival.txt" && !VENDORED(arg_path, vers)
-//@   call checkFiles$1 site 6 requires [C17] order_illformed: !arg_omitted && arg_err != nil && path.Clean(arg_path) == arg_path && !path.IsAbs(arg_path) && !VENDORED(arg_path, vers) && arg_path != ".hg_archival.txt" && !PATHOK(arg_path, 2)
-//@   call checkFiles$1 site 7 requires [C17] order_gomod_case: arg_err == errGoModCase && !arg_omitted && VALIDNAME_BUT_CASE(arg_path, vers) && strings.ToLower(arg_path) == "go.mod" && arg_path != "go.mod"
-//@   call checkFiles$1 site 8 requires [C17] order_io_error: !arg_omitted && !PREDEFINED(arg_err) && VALIDNAME(arg_path, vers)
-//@   call checkFiles$1 site 9 requires [C17] order_collision: !arg_omitted && arg_err != nil && VALIDNAME(arg_path, vers)
-//@   call checkFiles$1 site 10 requires [C17] order_symlink: arg_err == errSymlink && arg_omitted && VALIDNAME(arg_path, vers) && info.Mode() & os.ModeType == os.ModeSymlink
-//@   call checkFiles$1 site 11 requires [C17] order_irregular: arg_err == errNotRegular && arg_omitted && VALIDNAME(arg_path, vers) && info.Mode() & os.ModeType != os.ModeSymlink && !info.Mode().IsRegular()
+//@   call checkFiles$1 site 4 requires [C17] order_submodule: arg_err == errSubmoduleFile && arg_omitted && path.Clean(arg_path) == arg_path && !path.IsAbs(arg_path) && !VENDORED(arg_path, vers) && INSUB(arg_path, haveGoMod)
+//@   call checkFiles$1 site 5 requires [C17] order_hg: arg_err == errHgArchivalTxt && arg_omitted && arg_path == ".hg_archival.txt" && !VENDORED(arg_path, vers) && !INSUB(arg_path, haveGoMod)
+//@   call checkFiles$1 site 6 requires [C17] order_illformed: !arg_omitted && arg_err != nil && path.Clean(arg_path) == arg_path && !path.IsAbs(arg_path) && !VENDORED(arg_path, vers) && arg_path != ".hg_archival.txt" && !PATHOK(arg_path, 2) && !INSUB(arg_path, haveGoMod)
+//@   call checkFiles$1 site 7 requires [C17] order_gomod_case: arg_err == errGoModCase && !arg_omitted && VALIDNAME_BUT_CASE(arg_path, vers) && strings.ToLower(arg_path) == "go.mod" && arg_path != "go.mod" && !INSUB(arg_path, haveGoMod)
+//@   call checkFiles$1 site 8 requires [C17] order_io_error: !arg_omitted && !PREDEFINED(arg_err) && VALIDNAME(arg_path, vers) && !INSUB(arg_path, haveGoMod)
+//@   call checkFiles$1 site 9 requires [C17] order_collision: !arg_omitted && arg_err != nil && VALIDNAME(arg_path, vers) && !INSUB(arg_path, haveGoMod)
+//@   call checkFiles$1 site 10 requires [C17] order_symlink: arg_err == errSymlink && arg_omitted && VALIDNAME(arg_path, vers) && info.Mode() & os.ModeType == os.ModeSymlink && !INSUB(arg_path, haveGoMod)
+//@   call checkFiles$1 site 11 requires [C17] order_irregular: arg_err == errNotRegular && arg_omitted && VALIDNAME(arg_path, vers) && info.Mode() & os.ModeType != os.ModeSymlink && !info.Mode().IsRegular() && !INSUB(arg_path, haveGoMod)
 //@   call checkFiles$1 site 12 requires [C17] order_gomod_size: arg_err == errGoModSize && !arg_omitted && arg_path == "go.mod" && size > MaxGoMod && info.Mode().IsRegular()
 //@   call checkFiles$1 site 13 requires [C17] order_license_size: arg_err == errLICENSESize && !arg_omitted && arg_path == "LICENSE" && size > MaxLICENSE && info.Mode().IsRegular()
 //@   ensures [C17, C05] parallel: len(validFiles) == len(cf.Valid) && len(validSizes) == len(cf.Valid) && (forall k int :: 0 <= k && k < len(cf.Valid) ==> validFiles[k] != nil && validFiles[k].Path() == cf.Valid[k])
